@@ -20,25 +20,37 @@ Preconditions (all explicit, `Chewing.Model.ConversionSpec`):
   non-intersecting.  The public `Composition` API admits selections violating this (`push_selection`
   checks only `end ≤ len`; `replace` keeps a selection over the replaced symbol): known finding **F31**,
   class `F31-invalid-selection`; `C03_full_refuted` proves the statement without `CompValid` false.
-* `NoEmptyKey d` — nothing is stored under the empty key (F39).
 * `WellFormed d` — a phrase has as many characters as its key has syllables (needed wherever character
   counts matter).
-* `HasWord d strat c` — every syllable has a one-syllable word; this is the quantifier of the property
-  ("a dictionary that has at least one word per syllable").  Without it the Chewing engine panics (F02,
-  `no_word_chewing_panics`) and the simple engine shows the Bopomofo spelling (F30, `no_word_simple_spelling`).
+* `HasWord d strat c` — every syllable has a one-syllable word; the quantifier of the property's
+  *one-character clause only* ("a dictionary that has at least one word per syllable").  It is **not** a
+  premise of tiling or liveness any more: since the `fix:` of F02 / F03 `find_best_phrase` falls back to the
+  syllable's own Bopomofo spelling, so all three engines show a word-less unselected syllable as its spelling
+  (F30: `no_word_chewing_spelling`, `no_word_simple_spelling`; `spelling_glued`) and never panic.
+* `NoEmptyKey d` is no premise of any theorem any more: `find_best_phrase` answers `None` for an empty range
+  whatever is stored under the empty key (F39 repaired at the engine, `empty_key_harmless`).  The predicate
+  stays in the vocabulary for its other users.
+* `ScoreBound` (liveness only): ≤ 128 symbols, frequencies ≤ `2^23` (the `i32` score arithmetic).
 
-Theorems (all for every engine, every alternative, every pick oracle, every dictionary):
-`tiles`, `one_char_per_symbol`, `char_symbols_verbatim` (+ `char_symbols_displayed`), `display_is_concat`,
-`provenance` (+ `provenance_simple` without `HasWord`); section "obligations of C04 discharged here":
-`selection_shown`, `break_not_spanned`; liveness: `shortest_path_terminates`, `fuel_suffices`,
-`find_intervals_valid`, `shortest_path_complete`, `no_path_panic`, `nonempty_result`; the full statement
-`C03_full`, `C03_full_refuted` (F31 witness), `C03_partial`; witnesses for every excluded class
-(`invalid_selection_panics`, `invalid_selection_not_shown`, `no_word_chewing_panics` F02,
-`no_word_simple_spelling` F30, `empty_key_panics` F39) and non-vacuity examples.
+Theorems (all for every engine, every alternative, every pick oracle):
+* for **every dictionary**: `alt_chain`, `tiles`, `char_symbols_verbatim`, `break_not_spanned`,
+  `selection_not_split`, `provenance_general` (`ProvS` = `Prov` + the spelling), and with `WellFormed`: the
+  exact one-character clause `text_shape` (`SpelledText`: one piece per symbol, each one character or the
+  spelling of a word-less unselected syllable), `one_char_or_spelling` (an unglued interval has one character
+  per symbol or is exactly the fallback interval `Spelled`), `text_at_least_one_per_symbol`;
+* liveness for **every dictionary**: `shortest_path_terminates`, `fuel_suffices`, `find_intervals_valid`
+  (no premise at all), `shortest_path_complete`, `fallback_edge`, `no_path_panic`, `nonempty_result`;
+* under `HasWord`: `one_char_per_symbol`, `display_is_concat` (+ `char_symbols_displayed`), `provenance`,
+  `selection_shown` (C04);
+* the full statement `C03_full` (`Holds` = `live` + `tiling` for every dictionary + `chars` under `HasWord`),
+  `C03_full_refuted` (F31 witness), `C03_partial` (only `CompValid` added); witnesses for every class
+  (`invalid_selection_panics`, `invalid_selection_not_shown`, `no_word_chewing_spelling`,
+  `no_word_simple_spelling`, `spelling_glued`, `empty_key_harmless`) and non-vacuity examples with and
+  without `HasWord`.
 
 Not covered by a theorem here: that editor histories only reach `CompValid` compositions (C04's
-`CompInv`/`TextInv`/`SylInv`, to be bridged), and that the concrete dictionaries satisfy
-`NoEmptyKey`/`WellFormed` (facts about data: C09/C11/C20).
+`CompInv`/`TextInv`/`SylInv`, to be bridged), and that the concrete dictionaries satisfy `WellFormed`
+(a fact about data: C09/C11/C20).
 -/
 namespace Chewing.C03
 open Chewing Chewing.Conv
@@ -48,39 +60,69 @@ variable {pick : Nat → List Path → Nat} {eng : Engine} {d : Dict} {c : Compo
 
 /-! ## The engines, uniformly: chain form and per-interval facts -/
 
-/-- every alternative of every engine is a chain of non-empty intervals from `0` to `len` -/
-theorem alt_chain (hc : CompValid c) (hd : NoEmptyKey d) (h : convert pick eng d c = .ok alts) :
+/-- every alternative of every engine is a chain of non-empty intervals from `0` to `len` — for every
+    dictionary -/
+theorem alt_chain (hc : CompValid c) (h : convert pick eng d c = .ok alts) :
     ∀ alt ∈ alts, IvChain 0 c.symbols.length alt := by
   intro alt halt
   cases eng with
-  | chewing => exact (convertChewing_inv1 hc hd h alt halt).1
-  | fuzzy => exact (convertChewing_inv1 hc hd h alt halt).1
+  | chewing => exact (convertChewing_inv1 hc h alt halt).1
+  | fuzzy => exact (convertChewing_inv1 hc h alt halt).1
   | simple =>
     cases Outcome.ok.inj h
     rw [convertSimple_eq, List.mem_singleton] at halt
     exact halt ▸ convertSimple_chain hc
 
 /-- **tiles**: every alternative of every engine tiles `0..len`: starts at `0`, contiguous and
-    non-overlapping, every interval non-empty, ends at the buffer length -/
-theorem tiles (hc : CompValid c) (hd : NoEmptyKey d) (h : convert pick eng d c = .ok alts) :
+    non-overlapping, every interval non-empty, ends at the buffer length — for every dictionary -/
+theorem tiles (hc : CompValid c) (h : convert pick eng d c = .ok alts) :
     ∀ alt ∈ alts, Tiling alt c.symbols.length :=
-  fun alt halt => (alt_chain hc hd h alt halt).tiling
+  fun alt halt => (alt_chain hc h alt halt).tiling
 
-/-- **one_char_per_symbol**: each interval's text has exactly as many characters as symbols it covers -/
-theorem one_char_per_symbol (hc : CompValid c) (hd : NoEmptyKey d) (hw : WellFormed d)
-    (hs : eng = .simple → HasWord d .standard c) (h : convert pick eng d c = .ok alts) :
-    ∀ alt ∈ alts, ∀ iv ∈ alt, iv.text.length = iv.stop - iv.start := by
+/-- the per-interval text invariant of every engine, without `HasWord` -/
+theorem text_inv (hc : CompValid c) (hw : WellFormed d) (h : convert pick eng d c = .ok alts) :
+    ∀ alt ∈ alts, ∀ iv ∈ alt, IvInv3 d eng.strategy c iv := by
   intro alt halt iv hiv
   cases eng with
-  | chewing => exact (convertChewing_inv2 hc hd hw h alt halt iv hiv).len
-  | fuzzy => exact (convertChewing_inv2 hc hd hw h alt halt iv hiv).len
+  | chewing => exact convertChewing_inv3 hc hw h alt halt iv hiv
+  | fuzzy => exact convertChewing_inv3 hc hw h alt halt iv hiv
   | simple =>
     cases Outcome.ok.inj h
-    exact simple_len hc (hs rfl) hw (mem_convertSimple halt hiv)
+    exact simple_inv3 hc hw (mem_convertSimple halt hiv)
+
+/-- **text_shape** (the one-character clause, exact, for every dictionary): every interval's text is the
+    concatenation of one piece per covered symbol, each piece a single character — except that a syllable
+    without a word under the engine's strategy that no selection covers may appear as its Bopomofo
+    spelling (the fallback interval of F30, possibly glued to its neighbours by `glue_fn`) -/
+theorem text_shape (hc : CompValid c) (hw : WellFormed d) (h : convert pick eng d c = .ok alts) :
+    ∀ alt ∈ alts, ∀ iv ∈ alt, SpelledText d eng.strategy c iv.start iv.stop iv.text :=
+  fun alt halt iv hiv => (text_inv hc hw h alt halt iv hiv).shape
+
+/-- **one_char_or_spelling**: an interval that is not a product of `glue_fn` (no `Glue` gap strictly
+    inside it) has exactly one character per symbol, or it is *the* fallback interval: one word-less,
+    unselected syllable shown as exactly its spelling -/
+theorem one_char_or_spelling (hc : CompValid c) (hw : WellFormed d) (h : convert pick eng d c = .ok alts) :
+    ∀ alt ∈ alts, ∀ iv ∈ alt, NoGlueInside c iv.start iv.stop →
+      iv.text.length = iv.stop - iv.start ∨ Spelled d eng.strategy c iv :=
+  fun alt halt iv hiv => (text_inv hc hw h alt halt iv hiv).single
+
+/-- **one_char_per_symbol**: with a word for every syllable each interval's text has exactly as many
+    characters as symbols it covers -/
+theorem one_char_per_symbol (hc : CompValid c) (hw : WellFormed d) (hh : HasWord d eng.strategy c)
+    (h : convert pick eng d c = .ok alts) :
+    ∀ alt ∈ alts, ∀ iv ∈ alt, iv.text.length = iv.stop - iv.start :=
+  fun alt halt iv hiv => (text_shape hc hw h alt halt iv hiv).length_hasWord hh
+
+/-- **text_at_least_one_per_symbol**: without `HasWord`, no interval is shorter than its range (as long
+    as no buffered syllable has an empty spelling; `spell 0 = []`) -/
+theorem text_at_least_one_per_symbol (hc : CompValid c) (hw : WellFormed d) (hn : SpellNonempty c)
+    (h : convert pick eng d c = .ok alts) :
+    ∀ alt ∈ alts, ∀ iv ∈ alt, iv.stop - iv.start ≤ iv.text.length :=
+  fun alt halt iv hiv => (text_shape hc hw h alt halt iv hiv).length_ge hn
 
 /-- **char_symbols_verbatim**: a non-syllable symbol appears unchanged as an interval of its own at its
-    own position, in every alternative -/
-theorem char_symbols_verbatim (hc : CompValid c) (hd : NoEmptyKey d) (h : convert pick eng d c = .ok alts)
+    own position, in every alternative — for every dictionary -/
+theorem char_symbols_verbatim (hc : CompValid c) (h : convert pick eng d c = .ok alts)
     {i cp : Nat} (hi : c.symbols[i]? = some (Sym.chr cp)) :
     ∀ alt ∈ alts, ({ start := i, stop := i + 1, isPhrase := false, text := [cp] } : Interval) ∈ alt := by
   intro alt halt
@@ -104,8 +146,8 @@ theorem char_symbols_verbatim (hc : CompValid c) (hd : NoEmptyKey d) (h : conver
       cases hj
       exact hm
   cases eng with
-  | chewing => exact key _ (convertChewing_inv1 hc hd h alt halt).2 (convertChewing_inv1 hc hd h alt halt).1
-  | fuzzy => exact key _ (convertChewing_inv1 hc hd h alt halt).2 (convertChewing_inv1 hc hd h alt halt).1
+  | chewing => exact key _ (convertChewing_inv1 hc h alt halt).2 (convertChewing_inv1 hc h alt halt).1
+  | fuzzy => exact key _ (convertChewing_inv1 hc h alt halt).2 (convertChewing_inv1 hc h alt halt).1
   | simple =>
     cases Outcome.ok.inj h
     rw [convertSimple_eq, List.mem_singleton] at halt
@@ -114,37 +156,41 @@ theorem char_symbols_verbatim (hc : CompValid c) (hd : NoEmptyKey d) (h : conver
 
 /-- **display_is_concat**: in the pre-edit string (`Editor::display` = concatenation of the interval
     texts) every interval's text sits exactly over the symbols it covers; the string has `len` characters -/
-theorem display_is_concat (hc : CompValid c) (hd : NoEmptyKey d) (hw : WellFormed d)
-    (hs : eng = .simple → HasWord d .standard c) (h : convert pick eng d c = .ok alts) :
+theorem display_is_concat (hc : CompValid c) (hw : WellFormed d) (hh : HasWord d eng.strategy c)
+    (h : convert pick eng d c = .ok alts) :
     ∀ alt ∈ alts, (display alt).length = c.symbols.length ∧ ∀ iv ∈ alt, textAt alt iv.start iv.stop = iv.text := by
   intro alt halt
-  have hchain := alt_chain hc hd h alt halt
-  have hlen := one_char_per_symbol hc hd hw hs h alt halt
+  have hchain := alt_chain hc h alt halt
+  have hlen := one_char_per_symbol hc hw hh h alt halt
   exact ⟨by rw [display_length hchain hlen, Nat.sub_zero], fun iv hiv => textAt_interval hchain hlen hiv⟩
 
 /-- … in particular a non-syllable symbol is displayed unchanged at its own position -/
-theorem char_symbols_displayed (hc : CompValid c) (hd : NoEmptyKey d) (hw : WellFormed d)
-    (hs : eng = .simple → HasWord d .standard c) (h : convert pick eng d c = .ok alts)
-    {i cp : Nat} (hi : c.symbols[i]? = some (Sym.chr cp)) :
+theorem char_symbols_displayed (hc : CompValid c) (hw : WellFormed d) (hh : HasWord d eng.strategy c)
+    (h : convert pick eng d c = .ok alts) {i cp : Nat} (hi : c.symbols[i]? = some (Sym.chr cp)) :
     ∀ alt ∈ alts, textAt alt i (i + 1) = [cp] := by
   intro alt halt
-  exact (display_is_concat hc hd hw hs h alt halt).2 _ (char_symbols_verbatim hc hd h hi alt halt)
+  exact (display_is_concat hc hw hh h alt halt).2 _ (char_symbols_verbatim hc h hi alt halt)
 
-/-- **provenance**: every text is a non-syllable symbol itself, a phrase the dictionary returns (under
-    the engine's strategy) for exactly the covered syllables, the text of an explicit selection over
-    exactly its range, or such texts joined across `Glue` gaps -/
-theorem provenance (hc : CompValid c) (hd : NoEmptyKey d) (hs : eng = .simple → HasWord d .standard c)
-    (h : convert pick eng d c = .ok alts) :
-    ∀ alt ∈ alts, ∀ iv ∈ alt, Prov d eng.strategy c iv := by
+/-- **provenance_general** (every dictionary): every text is a non-syllable symbol itself, a phrase the
+    dictionary returns (under the engine's strategy) for exactly the covered syllables, the text of an
+    explicit selection over exactly its range, the spelling of a word-less unselected syllable, or such
+    texts joined across `Glue` gaps -/
+theorem provenance_general (hc : CompValid c) (h : convert pick eng d c = .ok alts) :
+    ∀ alt ∈ alts, ∀ iv ∈ alt, ProvS d eng.strategy c iv := by
   intro alt halt iv hiv
   cases eng with
-  | chewing => exact ((convertChewing_inv1 hc hd h alt halt).2 iv hiv).prov
-  | fuzzy => exact ((convertChewing_inv1 hc hd h alt halt).2 iv hiv).prov
+  | chewing => exact ((convertChewing_inv1 hc h alt halt).2 iv hiv).prov
+  | fuzzy => exact ((convertChewing_inv1 hc h alt halt).2 iv hiv).prov
   | simple =>
     cases Outcome.ok.inj h
-    exact simple_prov_hasWord (hs rfl) (mem_convertSimple halt hiv)
+    exact simple_provS (mem_convertSimple halt hiv)
 
-/-- without `HasWord` the simple engine's only other source is the spelling of a word-less syllable (F30) -/
+/-- **provenance**: with a word for every syllable the spelling never occurs -/
+theorem provenance (hc : CompValid c) (hh : HasWord d eng.strategy c) (h : convert pick eng d c = .ok alts) :
+    ∀ alt ∈ alts, ∀ iv ∈ alt, Prov d eng.strategy c iv :=
+  fun alt halt iv hiv => provS_hasWord hh (provenance_general hc h alt halt iv hiv)
+
+/-- the simple engine, unglued form: `Prov` or the spelling of a word-less syllable (F30) -/
 theorem provenance_simple (h : convert pick .simple d c = .ok alts) :
     ∀ alt ∈ alts, ∀ iv ∈ alt, Prov d .standard c iv ∨ spellingShown d c iv := by
   intro alt halt iv hiv
@@ -158,13 +204,12 @@ editor / `Composition` operations keep `CompValid`-style invariants and selectio
 say what every engine then does with them. -/
 
 /-- **selection_shown** (C04): a selection's text is shown over its range, in every alternative of every engine -/
-theorem selection_shown (hc : CompValid c) (hd : NoEmptyKey d) (hw : WellFormed d)
-    (hs : eng = .simple → HasWord d .standard c) (h : convert pick eng d c = .ok alts)
-    {x : Interval} (hx : x ∈ c.selections) :
+theorem selection_shown (hc : CompValid c) (hw : WellFormed d) (hh : HasWord d eng.strategy c)
+    (h : convert pick eng d c = .ok alts) {x : Interval} (hx : x ∈ c.selections) :
     ∀ alt ∈ alts, textAt alt x.start x.stop = x.text := by
   intro alt halt
-  have hchain := alt_chain hc hd h alt halt
-  have hlen := one_char_per_symbol hc hd hw hs h alt halt
+  have hchain := alt_chain hc h alt halt
+  have hlen := one_char_per_symbol hc hw hh h alt halt
   have hv := hc.sels x hx
   have key : ∀ (strat : Strategy), (∀ iv ∈ alt, IvInv1 d strat c iv) → (∀ iv ∈ alt, IvInv2 c iv) →
       textAt alt x.start x.stop = x.text := by
@@ -177,8 +222,8 @@ theorem selection_shown (hc : CompValid c) (hd : NoEmptyKey d) (hw : WellFormed 
       show x.start + (x.stop - x.start) = x.stop by have := hv.nonempty; omega] at this
     rw [this, hag]
   cases eng with
-  | chewing => exact key _ (convertChewing_inv1 hc hd h alt halt).2 (convertChewing_inv2 hc hd hw h alt halt)
-  | fuzzy => exact key _ (convertChewing_inv1 hc hd h alt halt).2 (convertChewing_inv2 hc hd hw h alt halt)
+  | chewing => exact key _ (convertChewing_inv1 hc h alt halt).2 (convertChewing_inv2 hc hw hh h alt halt)
+  | fuzzy => exact key _ (convertChewing_inv1 hc h alt halt).2 (convertChewing_inv2 hc hw hh h alt halt)
   | simple =>
     cases Outcome.ok.inj h
     have hm : x ∈ alt := by
@@ -187,14 +232,38 @@ theorem selection_shown (hc : CompValid c) (hd : NoEmptyKey d) (hw : WellFormed 
       exact (sortByStart_perm _).mem_iff.mpr (List.mem_append_right _ hx)
     exact textAt_interval hchain hlen hm
 
-/-- **break_not_spanned** (C04): no output interval of any alternative spans a `Break` gap -/
-theorem break_not_spanned (hc : CompValid c) (hd : NoEmptyKey d) (h : convert pick eng d c = .ok alts)
+/-- a selection is an interval of its own, or inside one: in every alternative of every engine and for
+    every dictionary the interval covering a selection's first symbol contains the whole selection -/
+theorem selection_not_split (hc : CompValid c) (h : convert pick eng d c = .ok alts)
+    {x : Interval} (hx : x ∈ c.selections) :
+    ∀ alt ∈ alts, ∃ iv ∈ alt, iv.start ≤ x.start ∧ x.stop ≤ iv.stop := by
+  intro alt halt
+  have hchain := alt_chain hc h alt halt
+  have hv := hc.sels x hx
+  cases eng with
+  | chewing =>
+    obtain ⟨iv, hm, i1, i2⟩ := hchain.covers (Nat.zero_le x.start) (Nat.lt_of_lt_of_le hv.nonempty hv.inRange)
+    exact ⟨iv, hm, ((convertChewing_inv1 hc h alt halt).2 iv hm).selCont x hx
+      (intersectRange_eq_true.mpr (by have := hv.nonempty; omega))⟩
+  | fuzzy =>
+    obtain ⟨iv, hm, i1, i2⟩ := hchain.covers (Nat.zero_le x.start) (Nat.lt_of_lt_of_le hv.nonempty hv.inRange)
+    exact ⟨iv, hm, ((convertChewing_inv1 hc h alt halt).2 iv hm).selCont x hx
+      (intersectRange_eq_true.mpr (by have := hv.nonempty; omega))⟩
+  | simple =>
+    cases Outcome.ok.inj h
+    rw [convertSimple_eq, List.mem_singleton] at halt
+    subst halt
+    exact ⟨x, (sortByStart_perm _).mem_iff.mpr (List.mem_append_right _ hx), Nat.le_refl _, Nat.le_refl _⟩
+
+/-- **break_not_spanned** (C04): no output interval of any alternative spans a `Break` gap — for every
+    dictionary -/
+theorem break_not_spanned (hc : CompValid c) (h : convert pick eng d c = .ok alts)
     {i : Nat} (hb : gapAt c i = some Gap.brk) :
     ∀ alt ∈ alts, ∀ iv ∈ alt, ¬ (iv.start < i ∧ i < iv.stop) := by
   intro alt halt iv hiv ⟨h1, h2⟩
   cases eng with
-  | chewing => exact ((convertChewing_inv1 hc hd h alt halt).2 iv hiv).noBreak i h1 h2 hb
-  | fuzzy => exact ((convertChewing_inv1 hc hd h alt halt).2 iv hiv).noBreak i h1 h2 hb
+  | chewing => exact ((convertChewing_inv1 hc h alt halt).2 iv hiv).noBreak i h1 h2 hb
+  | fuzzy => exact ((convertChewing_inv1 hc h alt halt).2 iv hiv).noBreak i h1 h2 hb
   | simple =>
     cases Outcome.ok.inj h
     exact simple_noBreak hc (mem_convertSimple halt hiv) i h1 h2 hb
@@ -208,39 +277,46 @@ theorem shortest_path_terminates {es : List Edge} {len : Nat} (hv : EdgesValid l
     {source : Nat} (hs : source ≤ len) : ∃ r, shortestPath es len removed source = .ok r :=
   shortestPath_total hv removed hs
 
-/-- **fuel_suffices**: on a valid composition no engine ever exhausts the model's fuel — with or without a
-    word per syllable, whatever the oracle answers: the outcome is a result or a (modelled) panic -/
-theorem fuel_suffices (hc : CompValid c) (hd : NoEmptyKey d) : convert pick eng d c ≠ .outOfFuel := by
+/-- **fuel_suffices**: on a valid composition no engine ever exhausts the model's fuel, whatever the
+    dictionary holds and whatever the oracle answers: the outcome is a result or a (modelled) panic -/
+theorem fuel_suffices (hc : CompValid c) : convert pick eng d c ≠ .outOfFuel := by
   cases eng with
-  | chewing => exact convertChewing_ne hc hd
-  | fuzzy => exact convertChewing_ne hc hd
+  | chewing => exact convertChewing_ne hc
+  | fuzzy => exact convertChewing_ne hc
   | simple => simp [convert]
 
-/-- … and the graph `find_intervals` builds is such a graph -/
-theorem find_intervals_valid {strat : Strategy} {es : List Edge} (hc : CompValid c) (hd : NoEmptyKey d)
+/-- … and the graph `find_intervals` builds is such a graph, for every composition and dictionary (an
+    empty range is never an edge, F39 repaired) -/
+theorem find_intervals_valid {strat : Strategy} {es : List Edge}
     (h : findIntervals d strat c = .ok es) : EdgesValid c.symbols.length es :=
-  edgesValid_of_findIntervals hc hd h
+  edgesValid_of_findIntervals h
 
 /-- … and BFS is complete: it finds a path whenever the graph has one (first call: nothing removed) -/
 theorem shortest_path_complete {es : List Edge} {len : Nat} (hv : EdgesValid len es) {p : Path}
     (hp : IsChain es 0 len p) : ∃ p', shortestPath es len [] 0 = .ok (some p') :=
   shortestPath_complete hv [] hp (fun _ _ _ _ h => by cases h)
 
-/-- the raw k-shortest paths exist whenever every syllable has a word: the `unwrap()` of F02 cannot
-    fire, no index is out of range, the fuel suffices — no bound on frequencies needed -/
-theorem no_path_panic {strat : Strategy} (hp : PickInRange pick) (hc : CompValid c) (hd : NoEmptyKey d)
-    (hw : HasWord d strat c) : ∃ paths, rawPaths pick d strat c = .ok paths ∧ paths ≠ [] ∧ trimPaths paths ≠ [] := by
-  obtain ⟨_, paths, _, h1, h2, h3⟩ := rawPaths_live hp hc hd hw
+/-- the interval graph of a valid composition always has an edge over a symbol no selection covers: the
+    best word, or — for a syllable without an acceptable word — its spelling (F02 / F03 repaired) -/
+theorem fallback_edge {strat : Strategy} (hc : CompValid c) {i : Nat} (hi : i < c.symbols.length) (hf : Free c i) :
+    ∃ ph, findBestPhrase d strat c i (i + 1) = .ok (some ph) :=
+  edge_of_free hc hi hf
+
+/-- the raw k-shortest paths exist for **every dictionary**: the `unwrap()` of F02 cannot fire, no index
+    is out of range, the fuel suffices — no bound on frequencies needed -/
+theorem no_path_panic {strat : Strategy} (hp : PickInRange pick) (hc : CompValid c) :
+    ∃ paths, rawPaths pick d strat c = .ok paths ∧ paths ≠ [] ∧ trimPaths paths ≠ [] := by
+  obtain ⟨_, paths, _, h1, h2, h3⟩ := rawPaths_live (d := d) (strat := strat) hp hc
   exact ⟨paths, h1, h2, h3⟩
 
-/-- **nonempty_result**: with a word for every syllable every engine returns at least one alternative —
-    no panic, no exhausted fuel (`ScoreBound` keeps the `i32` score arithmetic of the debug profile in range) -/
-theorem nonempty_result (hp : PickInRange pick) (hc : CompValid c) (hd : NoEmptyKey d)
-    (hw : HasWord d eng.strategy c) (hb : ScoreBound d eng.strategy c) :
+/-- **nonempty_result**: every engine returns at least one alternative on every valid composition,
+    **whatever the dictionary holds** — no panic, no exhausted fuel (`ScoreBound` keeps the `i32` score
+    arithmetic of the debug profile in range) -/
+theorem nonempty_result (hp : PickInRange pick) (hc : CompValid c) (hb : ScoreBound d eng.strategy c) :
     ∃ alts, convert pick eng d c = .ok alts ∧ alts ≠ [] := by
   cases eng with
-  | chewing => exact convertChewing_live hp hc hd hw hb
-  | fuzzy => exact convertChewing_live hp hc hd hw hb
+  | chewing => exact convertChewing_live hp hc hb
+  | fuzzy => exact convertChewing_live hp hc hb
   | simple => exact ⟨_, rfl, by simp [convertSimple]⟩
 
 /-- the canonical oracle (first candidate of minimal length) is in range -/
@@ -259,44 +335,58 @@ theorem pickFirstMin_inRange : PickInRange pickFirstMin := by
 
 /-! ## The full statement, its refutation (F31) and the partial theorem -/
 
-/-- everything C03 (and the conversion half of C04) claims about one conversion -/
+/-- everything C03 (and the conversion half of C04) claims about one conversion: `live` and `tiling` for
+    every dictionary, `chars` for "a dictionary that has at least one word per syllable" -/
 structure Holds (pick : Nat → List Path → Nat) (eng : Engine) (d : Dict) (c : Composition) : Prop where
+  /-- a result exists: no panic, no exhausted fuel, at least one alternative -/
   live : ∃ alts, convert pick eng d c = .ok alts ∧ alts ≠ []
-  sound : ∀ alts, convert pick eng d c = .ok alts → ∀ alt ∈ alts,
+  /-- tiling, verbatim non-syllables, breaks, selections kept whole, and the exact text shape -/
+  tiling : ∀ alts, convert pick eng d c = .ok alts → ∀ alt ∈ alts,
     Tiling alt c.symbols.length ∧
+    (∀ i cp, c.symbols[i]? = some (Sym.chr cp) →
+      ({ start := i, stop := i + 1, isPhrase := false, text := [cp] } : Interval) ∈ alt) ∧
+    (∀ i, gapAt c i = some Gap.brk → ∀ iv ∈ alt, ¬ (iv.start < i ∧ i < iv.stop)) ∧
+    (∀ x ∈ c.selections, ∃ iv ∈ alt, iv.start ≤ x.start ∧ x.stop ≤ iv.stop) ∧
+    (∀ iv ∈ alt, ProvS d eng.strategy c iv ∧ SpelledText d eng.strategy c iv.start iv.stop iv.text ∧
+      (NoGlueInside c iv.start iv.stop → iv.text.length = iv.stop - iv.start ∨ Spelled d eng.strategy c iv))
+  /-- one character per symbol when every syllable has a word -/
+  chars : HasWord d eng.strategy c → ∀ alts, convert pick eng d c = .ok alts → ∀ alt ∈ alts,
     (∀ iv ∈ alt, iv.text.length = iv.stop - iv.start ∧ Prov d eng.strategy c iv ∧
       textAt alt iv.start iv.stop = iv.text) ∧
     (display alt).length = c.symbols.length ∧
-    (∀ i cp, c.symbols[i]? = some (Sym.chr cp) →
-      ({ start := i, stop := i + 1, isPhrase := false, text := [cp] } : Interval) ∈ alt) ∧
-    (∀ x ∈ c.selections, textAt alt x.start x.stop = x.text) ∧
-    (∀ i, gapAt c i = some Gap.brk → ∀ iv ∈ alt, ¬ (iv.start < i ∧ i < iv.stop))
+    (∀ x ∈ c.selections, textAt alt x.start x.stop = x.text)
 
 /-- the property as worded: every composition the public API can build (only the invariant of the Rust
-    type is assumed), every dictionary with a word per syllable -/
+    type is assumed), every dictionary (the one-character clause: every dictionary with a word per syllable) -/
 def C03_full : Prop :=
-  ∀ pick eng d c, PickInRange pick → c.symbols.length = c.gaps.length → NoEmptyKey d → WellFormed d →
-    HasWord d eng.strategy c → ScoreBound d eng.strategy c → Holds pick eng d c
+  ∀ pick eng d c, PickInRange pick → c.symbols.length = c.gaps.length → WellFormed d →
+    ScoreBound d eng.strategy c → Holds pick eng d c
 
 /-- the partial theorem: the extra hypothesis `CompValid c` excludes exactly the class
     `F31-invalid-selection` (a selection that is empty / out of range / of the wrong text length / over
-    a non-syllable / across a break / intersecting another) -/
-theorem C03_partial : ∀ pick eng d c, PickInRange pick → CompValid c → NoEmptyKey d → WellFormed d →
-    HasWord d eng.strategy c → ScoreBound d eng.strategy c → Holds pick eng d c := by
-  intro pick eng d c hp hc hd hw hh hb
-  have hs : eng = .simple → HasWord d .standard c := fun h => by subst h; exact hh
-  refine ⟨nonempty_result hp hc hd hh hb, ?_⟩
-  intro alts h alt halt
-  have hdisp := display_is_concat hc hd hw hs h alt halt
-  refine ⟨tiles hc hd h alt halt, ?_, hdisp.1, ?_, ?_, ?_⟩
-  · intro iv hiv
-    exact ⟨one_char_per_symbol hc hd hw hs h alt halt iv hiv, provenance hc hd hs h alt halt iv hiv, hdisp.2 iv hiv⟩
-  · intro i cp hi
-    exact char_symbols_verbatim hc hd h hi alt halt
-  · intro x hx
-    exact selection_shown hc hd hw hs h hx alt halt
-  · intro i hb' iv hiv
-    exact break_not_spanned hc hd h hb' alt halt iv hiv
+    a non-syllable / across a break / intersecting another).  No premise on the dictionary's words. -/
+theorem C03_partial : ∀ pick eng d c, PickInRange pick → CompValid c → WellFormed d →
+    ScoreBound d eng.strategy c → Holds pick eng d c := by
+  intro pick eng d c hp hc hw hb
+  refine ⟨nonempty_result hp hc hb, ?_, ?_⟩
+  · intro alts h alt halt
+    refine ⟨tiles hc h alt halt, ?_, ?_, ?_, ?_⟩
+    · intro i cp hi
+      exact char_symbols_verbatim hc h hi alt halt
+    · intro i hb' iv hiv
+      exact break_not_spanned hc h hb' alt halt iv hiv
+    · intro x hx
+      exact selection_not_split hc h hx alt halt
+    · intro iv hiv
+      exact ⟨provenance_general hc h alt halt iv hiv, text_shape hc hw h alt halt iv hiv,
+        one_char_or_spelling hc hw h alt halt iv hiv⟩
+  · intro hh alts h alt halt
+    have hdisp := display_is_concat hc hw hh h alt halt
+    refine ⟨?_, hdisp.1, ?_⟩
+    · intro iv hiv
+      exact ⟨one_char_per_symbol hc hw hh h alt halt iv hiv, provenance hc hh h alt halt iv hiv, hdisp.2 iv hiv⟩
+    · intro x hx
+      exact selection_shown hc hw hh h hx alt halt
 
 /-! ### witnesses -/
 
@@ -313,13 +403,13 @@ def cWrongLen : Composition :=
   { symbols := [.syl 10268], gaps := [.begin], selections := [⟨0, 1, true, [20874, 20874, 20874]⟩] }
 
 /-- **C03_full_refuted** (F31): without `CompValid` the statement is false — a selection whose text has
-    the wrong length is shown verbatim: 3 characters for 1 symbol -/
+    the wrong length is shown verbatim: 3 characters for 1 symbol (a syllable that *has* words) -/
 theorem C03_full_refuted : ¬ C03_full := by
   intro h
-  have hh := h pickFirstMin .simple dEx cWrongLen pickFirstMin_inRange rfl dEx_ok.1 dEx_ok.2 (by decide)
+  have hh := h pickFirstMin .simple dEx cWrongLen pickFirstMin_inRange rfl dEx_ok.2
     (scoreBound_ofEntries (by decide) (by decide))
   have hconv : convert pickFirstMin .simple dEx cWrongLen = .ok [[⟨0, 1, true, [20874, 20874, 20874]⟩]] := by decide
-  have := (hh.sound _ hconv _ (List.mem_singleton.mpr rfl)).2.1
+  have := (hh.chars (by decide) _ hconv _ (List.mem_singleton.mpr rfl)).1
     ⟨0, 1, true, [20874, 20874, 20874]⟩ (List.mem_singleton.mpr rfl)
   exact absurd this.1 (by decide)
 
@@ -336,22 +426,31 @@ theorem invalid_selection_not_shown :
       { symbols := [.chr 65], gaps := [.begin], selections := [⟨0, 1, true, [20874]⟩] }
       = .ok [[⟨0, 1, false, [65]⟩]] := by decide
 
-/-- F02 (outside the quantifier): a syllable without a word makes the Chewing engine panic … -/
-theorem no_word_chewing_panics :
+/-- F02 repaired / F30: a syllable without a word no longer makes the Chewing engine panic; it shows the
+    Bopomofo spelling, 3 characters (`ㄘㄜˋ`) for 1 symbol … -/
+theorem no_word_chewing_spelling :
     convert pickFirstMin .chewing (Dict.ofEntries []) { symbols := [.syl 10268], gaps := [.begin] }
-      = .panic "called `Option::unwrap()` on a `None` value (no path)" := by decide
+      = .ok [[⟨0, 1, true, [12568, 12572, 715]⟩]] := by decide
 
-/-- … and F30: the simple engine shows its Bopomofo spelling, 3 characters (`ㄘㄜˋ`) for 1 symbol -/
+/-- … exactly as the simple engine does (F30) -/
 theorem no_word_simple_spelling :
     convert pickFirstMin .simple (Dict.ofEntries []) { symbols := [.syl 10268], gaps := [.begin] }
       = .ok [[⟨0, 1, true, [12568, 12572, 715]⟩]] := by decide
 
-/-- F39 (why `NoEmptyKey`): an entry under the empty key yields a `(0, 0)` edge and the index
-    `start * len + end - 1` underflows -/
-theorem empty_key_panics :
+/-- F39 repaired at the engine: an entry under the empty key no longer yields a `(0, 0)` edge (the index
+    `start * len + end - 1` used to underflow); the conversion is what it is without that entry -/
+theorem empty_key_harmless :
     convert pickFirstMin .chewing (Dict.ofEntries [([], ⟨[28204], 1, none⟩), ([10268], ⟨[28204], 1, none⟩)])
       { symbols := [.syl 10268], gaps := [.begin] }
-      = .panic "attempt to subtract with overflow (start * len + end - 1)" := by decide
+      = .ok [[⟨0, 1, true, [28204]⟩]] := by decide
+
+/-- the fallback interval is a phrase interval for `glue_fn`: glued to a neighbour its spelling sits inside
+    a longer interval (why `one_char_or_spelling` asks for `NoGlueInside`, and `text_shape` does not):
+    10268 has a word, 1100 has none under this dictionary (4 characters for 2 symbols) -/
+theorem spelling_glued :
+    convert pickFirstMin .chewing (Dict.ofEntries [([10268], ⟨[28204], 5, none⟩)])
+      { symbols := [.syl 10268, .syl 1100], gaps := [.begin, .glue] }
+      = .ok [[⟨0, 2, true, [28204, 12550, 12578, 715]⟩]] := by decide
 
 /-- non-vacuity: a composition with a selection, a break, a glue mark and a character satisfies every
     hypothesis, and this is what the three engines return for it -/
@@ -373,7 +472,23 @@ example : convert pickFirstMin .simple dEx cEx =
           ⟨4, 5, false, [97]⟩, ⟨5, 6, true, [28204]⟩]] := by decide
 
 example : Holds pickFirstMin .chewing dEx cEx :=
-  C03_partial _ _ _ _ pickFirstMin_inRange (by decide) dEx_ok.1 dEx_ok.2 (by decide)
+  C03_partial _ _ _ _ pickFirstMin_inRange (by decide) dEx_ok.2 (scoreBound_ofEntries (by decide) (by decide))
+
+/-- non-vacuity of the word-less case: the same composition over a dictionary that has no word for 1100
+    is valid, does not satisfy `HasWord`, and `Holds` all the same -/
+def dNoShi : Dict := Dict.ofEntries [([10268], ⟨[28204], 5, none⟩), ([10268], ⟨[20874], 5, none⟩)]
+
+example : CompValid cEx ∧ ¬ HasWord dNoShi .standard cEx ∧ SpellNonempty cEx := ⟨by decide, by decide, by
+  intro k hk
+  simp only [cEx, List.mem_cons, Sym.syl.injEq, List.not_mem_nil, or_false, reduceCtorEq] at hk
+  rcases hk with rfl | rfl | rfl | rfl | hk | rfl <;> first | decide | cases hk⟩
+
+example : Holds pickFirstMin .chewing dNoShi cEx :=
+  C03_partial _ _ _ _ pickFirstMin_inRange (by decide) (wellFormed_ofEntries (by decide))
     (scoreBound_ofEntries (by decide) (by decide))
+
+example : convert pickFirstMin .chewing dNoShi cEx =
+    .ok [[⟨0, 1, true, [20874]⟩, ⟨1, 3, true, [12550, 12578, 715, 28204]⟩, ⟨3, 4, true, [12550, 12578, 715]⟩,
+          ⟨4, 5, false, [97]⟩, ⟨5, 6, true, [28204]⟩]] := by decide
 
 end Chewing.C03
